@@ -629,12 +629,16 @@ class PEP(object):
                 print('(PEPit) Calling SDP solver')
 
             # Translate the heuristic into the objective and solve the associated problem
+            # Note: if the solver does not solve a dimension reduction problem (numerical issue),
+            # the last solution found (at worst, the one of the original problem) is kept.
             if dimension_reduction_heuristic == "trace":
                 wrapper.heuristic(np.identity(Point.counter))
-                solver_status, solver_name, wc_value = wrapper.solve(**kwargs)
+                solver_status, solver_name, heuristic_value = wrapper.solve(**kwargs)
 
                 # Compute minimal number of dimensions
-                G_value, F_value = wrapper.get_primal_variables()
+                if heuristic_value is not None:
+                    wc_value = heuristic_value
+                    G_value, F_value = wrapper.get_primal_variables()
                 nb_eigenvalues, eig_threshold, corrected_G_value = self.get_nb_eigenvalues_and_corrected_matrix(G_value)
 
             elif dimension_reduction_heuristic.startswith("logdet"):
@@ -642,9 +646,12 @@ class PEP(object):
                 for i in range(1, 1 + niter):
                     W = np.linalg.inv(corrected_G_value + eig_regularization * np.eye(Point.counter))
                     wrapper.heuristic(W)
-                    solver_status, solver_name, wc_value = wrapper.solve(**kwargs)
+                    solver_status, solver_name, heuristic_value = wrapper.solve(**kwargs)
+                    if heuristic_value is None:
+                        break
 
                     # Compute minimal number of dimensions
+                    wc_value = heuristic_value
                     G_value, F_value = wrapper.get_primal_variables()
                     nb_eigenvalues, eig_threshold, corrected_G_value = self.get_nb_eigenvalues_and_corrected_matrix(
                         G_value)
